@@ -739,11 +739,21 @@ def case_signature(p):
         tree["type"] = 0x25
     if "properties" in sch:
         tree["properties"] = 0x0033
+    wire = ts.encode(Cls, tree)
     try:
-        obj = Cls.decode(ts.encode(Cls, tree))
+        obj = Cls.decode(wire)
         d = obj.to_dict()
     except Exception as e:  # noqa: BLE001
         return [(f"signature:decode-or-to_dict-raises:{type(e).__name__}:{p['transport']}", {**p, "error": str(e)[:160]})]
+    # the same bytes as the transports hand them over: a bytearray (what a GATT read returns), a slice of a larger bytearray - same report
+    big = bytearray(b"\x00\x00\x00" + bytes(wire) + b"\x00")
+    for how, buf in (("bytearray", bytearray(wire)), ("bytearray-slice", big[3:-1])):
+        try:
+            d2 = Cls.decode(buf).to_dict()
+        except Exception as e:  # noqa: BLE001
+            return [(f"signature:decode-or-to_dict-raises:{type(e).__name__}:{p['transport']}:given-a-{how}", {**p, "error": str(e)[:160]})]
+        if d2 != d:
+            return [(f"signature:report-depends-on-the-buffer-type:{p['transport']}:{how}", {**p, "bytes": repr(d)[:120], how: repr(d2)[:120]})]
     want_lo, want_hi = _st.unpack("<" + code * 2, tree["valid_range"])
     want = {"format": name, "minValue": want_lo, "maxValue": want_hi}
     if step:
